@@ -1,6 +1,7 @@
 """C11: every reported intersection is a real one, in range, with coherent parameters."""
 from __future__ import annotations
 import math
+import cmath
 import warnings
 from fractions import Fraction as Fr
 import numpy as np
@@ -773,8 +774,40 @@ def _tolerated(spt, a, b, e):
 def _configs(spt, r, ka, kb, scale, cfg=None):
     """yield (config name, a, b)"""
     P = spt.path
-    cfg = cfg or r.choice(['cross', 'cross', 'cross', 'touch', 'disjoint', 'near-miss', 'endpoint', 'random'])
+    cfg = cfg or r.choice(['cross', 'cross', 'cross', 'touch', 'disjoint', 'near-miss', 'endpoint', 'random', 'special'])
     classes = (r.choice([None, 'circ0']) if ka == 'arc' else None, r.choice([None, 'circ0']) if kb == 'arc' else None)
+    if cfg == 'special':
+        # exactly degenerate coefficient patterns of the polynomials handed to the root finders: a quadratic whose start tangent is
+        # exactly parallel to an axis-parallel line (zero linear coefficient), a line that starts exactly at the centre of a rotated arc
+        # (or at the foot of the perpendicular from the centre)
+        kinds = {ka, kb}
+        if kinds == {'quad', 'line'}:
+            p0 = complex(r.randint(-3, 3), r.randint(-3, 3)) * scale
+            horiz = r.random() < 0.5
+            d1 = (complex(r.choice([1, 2, -1.5]), 0) if horiz else complex(0, r.choice([1, 2, -1.5]))) * scale
+            p2 = p0 + complex(r.uniform(0.5, 3), r.uniform(0.5, 3)) * scale * r.choice([1, -1])
+            q = P.QuadraticBezier(p0, p0 + d1, p2)
+            m = q.point(r.uniform(0.3, 0.8))
+            ln = (P.Line(complex(m.real - 4 * scale, m.imag), complex(m.real + 4 * scale, m.imag)) if horiz
+                  else P.Line(complex(m.real, m.imag - 4 * scale), complex(m.real, m.imag + 4 * scale)))
+            if r.random() < 0.3:      # a short line that does not reach the curve at all
+                ln = P.Line(ln.start, ln.start + (ln.end - ln.start) * 0.01)
+            return (cfg, q, ln) if ka == 'quad' else (cfg, ln, q)
+        if kinds == {'arc', 'line'}:
+            arc = ic.rand_seg(spt, r, 'arc', scale, None)
+            if arc.rotation == 0:
+                arc = arc.rotated(r.choice([30, 77.5, -120]))
+            c = arc.center
+            far = c + cmath.rect(4 * abs(arc.radius) , r.uniform(0, 6.28))
+            ln = P.Line(c, far)
+            if r.random() < 0.4:
+                # start at the foot of the perpendicular from the centre onto a line that crosses the arc
+                a_, b_ = arc.point(0.4), arc.point(0.4) + cmath.rect(abs(arc.radius), r.uniform(0, 6.28))
+                d_ = (b_ - a_) / abs(b_ - a_)
+                foot = a_ + d_ * ((c - a_).real * d_.real + (c - a_).imag * d_.imag)
+                ln = P.Line(foot, foot + d_ * 4 * abs(arc.radius))
+            return (cfg, arc, ln) if ka == 'arc' else (cfg, ln, arc)
+        cfg = 'cross'
     if cfg == 'random':
         return cfg, ic.rand_seg(spt, r, ka, scale, classes[0]), ic.rand_seg(spt, r, kb, scale, classes[1])
     if cfg == 'disjoint':
